@@ -27,6 +27,28 @@ func (x *Exec) libraryModel(st *State, call *ast.CallExpr, c *callee, recv *T, a
 	if x.prog.isLogCall(c.fn) {
 		return pack(x.freshResults(st, sig, "log"), call), true
 	}
+	// generated protobuf getters: (*M).GetF() returns m.F, or the zero value for a nil receiver
+	if recv != nil && c.fn.Pkg() != nil && strings.HasSuffix(c.fn.Pkg().Path(), "/pb") && strings.HasPrefix(c.fn.Name(), "Get") && sig.Params().Len() == 0 && sig.Results().Len() == 1 {
+		if pt, ok := recv.Ty.Underlying().(*types.Pointer); ok {
+			if su, ok := pt.Elem().Underlying().(*types.Struct); ok {
+				fname := strings.TrimPrefix(c.fn.Name(), "Get")
+				for i := 0; i < su.NumFields(); i++ {
+					f := su.Field(i)
+					if f.Name() == fname && types.Identical(f.Type(), rt(0)) {
+						x.trust("generated protobuf getters (*M).GetF() return m.F, or the zero value for a nil receiver")
+						key := x.heapKeyField(pt.Elem(), f.Name(), f.Type())
+						val := fmt.Sprintf("(select %s %s)", x.heapGet(st, key), recv.S)
+						r := T{S: ite(eq(recv.S, "0"), x.zero(f.Type()), val), Ty: f.Type()}
+						if isRefType(f.Type()) {
+							st.assume(fmt.Sprintf("(or (= %s 0) (select %s %s))", r.S, st.alloc, r.S))
+						}
+						st.assume(x.rangeFact(r))
+						return r, true
+					}
+				}
+			}
+		}
+	}
 	switch name {
 	case "fmt.Errorf", "errors.New":
 		x.trust("fmt.Errorf / errors.New return a fresh non-nil error")
@@ -90,6 +112,38 @@ func (x *Exec) libraryModel(st *State, call *ast.CallExpr, c *callee, recv *T, a
 		ctx := x.alloc(st, "ctx")
 		cancel := x.havocVal(st, "cancel", rt(1))
 		return T{Tuple: []T{{S: ctx, Ty: rt(0)}, cancel}}, true
+	case "google.golang.org/protobuf/proto.Unmarshal", "github.com/golang/protobuf/proto.Unmarshal", "github.com/gogo/protobuf/proto.Unmarshal":
+		// the decoder may set every field of the target message to any value of its type
+		// (in particular sub-message pointers may stay nil): havoc the pointed-to struct
+		if len(call.Args) == 2 {
+			if pt, ok := x.typeOf(call.Args[1]).Underlying().(*types.Pointer); ok {
+				if _, isStruct := pt.Elem().Underlying().(*types.Struct); isStruct {
+					x.trust("proto.Unmarshal sets the target message to an arbitrary value of its type (any field, including sub-messages, may be left zero/nil)")
+					p := x.eval(st, call.Args[1])
+					dv := x.havocVal(st, "decoded", pt.Elem())
+					x.storeThrough(st, p.S, pt.Elem(), dv)
+					// elements of repeated message fields are allocated by the decoder (never nil)
+					if su, ok := pt.Elem().Underlying().(*types.Struct); ok {
+						if info := x.d.structInfoOf(pt.Elem()); info != nil {
+							for i := 0; i < su.NumFields(); i++ {
+								f := su.Field(i)
+								sl, isSlice := f.Type().Underlying().(*types.Slice)
+								if !isSlice {
+									continue
+								}
+								if _, isPtr := sl.Elem().Underlying().(*types.Pointer); !isPtr {
+									continue
+								}
+								fv := app(x.d.accessor(info.sort, f.Name()), dv.S)
+								st.assume(fmt.Sprintf("(forall ((i Int)) (! (=> (and (<= 0 i) (< i %s)) (not (= %s 0))) :pattern (%s)))", slcLen(fv), slcAt(fv, "i"), slcAt(fv, "i")))
+								x.trust("proto.Unmarshal: elements of repeated message fields are non-nil")
+							}
+						}
+					}
+					return x.havocVal(st, "unmarshal_err", rt(0)), true
+				}
+			}
+		}
 	case "context.Background", "context.TODO":
 		return T{S: x.alloc(st, "ctx"), Ty: rt(0)}, true
 	}
@@ -235,6 +289,13 @@ func (x *Exec) bigModel(st *State, call *ast.CallExpr, m string, recv *T, args [
 	case "BitLen", "Bit":
 		v := x.havocVal(st, "bigbits", sig.Results().At(0).Type())
 		st.assume(fmt.Sprintf("(>= %s 0)", v.S))
+		if m == "Bit" {
+			// a single bit; bit 0 of a non-negative value is its parity
+			st.assume(fmt.Sprintf("(<= %s 1)", v.S))
+			if len(args) == 1 && args[0].S == "0" {
+				st.assume(implies(fmt.Sprintf("(>= %s 0)", val(*recv)), eq(v.S, fmt.Sprintf("(mod %s 2)", val(*recv)))))
+			}
+		}
 		return v, true
 	}
 	// unknown method: result value is havoc
@@ -328,7 +389,11 @@ func (x *Exec) lockOp(st *State, call *ast.CallExpr, mode string, acquire bool) 
 		}
 		// other goroutines may have changed the guarded fields
 		su, _ := ot.Underlying().(*types.Struct)
-		if x.opts["lock-no-havoc"] != "" {
+		if x.opts["lock-no-havoc"] != "" && (st.held["~rel:"+key] != "" || len(x.loops) > 0) {
+			// a second critical section of the same mutex (or one inside a loop) is not
+			// part of the linearization point: other goroutines may have run in between
+			x.note("%s: %s is re-acquired after a release (or inside a loop): guarded fields are havoc'd there even under the sequential specification", x.unit, key)
+		} else if x.opts["lock-no-havoc"] != "" {
 			// sequential specification: the contract is read at the linearization
 			// point (the whole body is one critical section), so the entry state
 			// is the state at Lock
@@ -370,6 +435,7 @@ func (x *Exec) lockOp(st *State, call *ast.CallExpr, mode string, acquire bool) 
 		}
 	}
 	delete(st.held, key)
+	st.held["~rel:"+key] = "1"
 }
 
 func (x *Exec) ghostsGuardedBy(ts *TypeSpec, mu string) []string {
